@@ -2020,7 +2020,13 @@ fn case_eng_distinct(r: &mut Rng, g: &Graph, out: &mut Out, forced: Option<(usiz
     let as_rows: Vec<Vec<V>> = vals.iter().map(|v| vec![v.clone()]).collect();
     let valsc = coq::list(vals.iter().map(|v| v.coq()));
     let (expected, coqt, kid, kc, t) = match form {
-        0 => (dedup_struct(&as_rows), format!("chk_eng_return_distinct {} {}", valsc, coq_rows(&rows)), "C11-K3", format!("k_return_distinct {}", valsc), "distinct:return-distinct"),
+        // no duplicate removed at all: K3 (RETURN DISTINCT ignored); otherwise the Distinct operator ran and only a
+        // collision of its row key (K4) is a listed way to a wrong answer
+        0 => if rows == as_rows {
+            (dedup_struct(&as_rows), format!("chk_eng_return_distinct {} {}", valsc, coq_rows(&rows)), "C11-K3", format!("k_return_distinct {}", valsc), "distinct:return-distinct")
+        } else {
+            (dedup_struct(&as_rows), format!("chk_eng_return_distinct {} {}", valsc, coq_rows(&rows)), "C11-K4", format!("k_key_collision_vals {}", valsc), "distinct:return-distinct")
+        },
         1 => (dedup_struct(&as_rows), format!("chk_eng_with_distinct {} {}", valsc, coq_rows(&rows)), "C11-K4", format!("k_key_collision_vals {}", valsc), "distinct:with-distinct"),
         _ => {
             let mut e: Vec<Vec<V>> = Vec::new();
